@@ -165,7 +165,16 @@ def _election(eseed, district=False, big=False, n_units=None):
         pre = synth.with_margin_features(pre)
         if district:
             pre["geographic_unit_type"] = "precinct-district"
+            # two precincts the baseline does not know (complete feed plus extras): which county they are attributed to
+            # must not depend on the aggregate levels a request names (seeded change C13_G)
+            extra = cur.iloc[[0, 1]].copy()
+            ids = extra.geographic_unit_fips.str.split("_")
+            extra["geographic_unit_fips"] = [f"{p[0]}_{p[1]}_9{k}" for k, p in enumerate(ids)]
+            cur = pd.concat([cur, extra], ignore_index=True)
         else:
+            # the baseline of turnout may be pointed at another column by the configuration (`baseline_pointer`); the
+            # column is there for every unit, requests on even elections use it (seeded change C13_H)
+            pre["baseline_turnout_pres"] = (pre["baseline_turnout"] * 1.15).round().astype(int)
             # one reporting unit is the only one of its classification: with fixed effects on the classification a
             # calibration split can leave that value out of the training rows (whatever the code then does must be
             # derived from the seed: seeded change C12_H)
@@ -180,11 +189,11 @@ def concrete_args(w, est, arg):
     return t["bootstrap" if est == "bootstrap" else "conformal"][arg]
 
 
-def call_estimates(client, pre, cur, est, a, office="G", gut="precinct", copy_pre=True):
+def call_estimates(client, pre, cur, est, a, office="G", gut="precinct", copy_pre=True, pointer=None):
     """One real get_estimates call; omitted arguments are really omitted.  copy_pre=False hands the caller's own
     baseline frame to the client (a caller that loads its baseline data once and polls all night does that)."""
     kw = dict(
-        raw_config=synth.config(office, STATES),
+        raw_config=synth.config(office, STATES, pointer=pointer),
         preprocessed_data=pre.copy() if copy_pre else pre,
         features=list(a["features"]),
         aggregates=list(a["aggregates"]),
@@ -464,7 +473,8 @@ def run_request(job):
     t0 = time.time()
     _SINK = []
     try:
-        res = call_estimates(ModelClient(), pre, cur, req["estimator"], request_args(req), office=office, gut=gut)
+        pointer = {"turnout": "turnout_pres"} if (not district and eseed % 2 == 0 and req["estimator"] != "bootstrap") else None
+        res = call_estimates(ModelClient(), pre, cur, req["estimator"], request_args(req), office=office, gut=gut, pointer=pointer)
         for tname, df in res.items():
             lvl = LEVEL_OF_TABLE.get(tname, tname)
             rec["tables"][lvl] = [parse_column(c) for c in df.columns]
